@@ -1,6 +1,7 @@
 """C16 — credentials verify only when genuine, unexpired and unused (DESIGN.md §7 C16)."""
 import json
 
+import code_tie
 import vlib
 
 META = {
@@ -27,6 +28,7 @@ META = {
 MODEL = ["theories/Cred/CredCorr.vo"]
 PROOFS = ["theories/Props/C16.vo"]
 STATEMENT_FILES = ["theories/Props/C16.v", "theories/Cred/CredGen.v"]
+SEMANTIC_TIE = code_tie.functions("C16")   # Go bodies proved equal to the model (Props/C16Code.v)
 
 NS = 10 ** 9
 GRACE = 300 * NS
@@ -570,6 +572,7 @@ def run(ck):
             ck.discharged = list(ck.obligations)
     if ck.thorough and proofs_ok:
         ck.coqchk(["Verif.Props.C16"])
+    code_tie.run(ck, "C16")
 
     binp = ck.build_harness("c16")
     cases = []
